@@ -235,6 +235,10 @@ static void build_registry() {
       EN("msg_type", 8, uint8_t, DHCPv6::MessageType, msg_type); fix_last(); SU("transaction_id", 24, 24, transaction_id); }
     { typedef DHCPv6 T; cls("DHCPv6_relay", false, []() -> PDU* { DHCPv6* d = new DHCPv6(); d->msg_type(DHCPv6::RELAY_FORWARD); return d; });
       EN("msg_type", 8, uint8_t, DHCPv6::MessageType, msg_type); fix_last(); U("hop_count", 8, uint8_t, hop_count); V6("link_address", link_address); V6("peer_address", peer_address); }
+    { typedef DHCPv6 T; cls("DHCPv6_relay_reply", false, []() -> PDU* { DHCPv6* d = new DHCPv6(); d->msg_type(DHCPv6::RELAY_REPLY); return d; });
+      EN("msg_type", 8, uint8_t, DHCPv6::MessageType, msg_type); fix_last(); U("hop_count", 8, uint8_t, hop_count); V6("link_address", link_address); V6("peer_address", peer_address); }
+    { typedef DHCPv6 T; cls("DHCPv6_decline", false, []() -> PDU* { DHCPv6* d = new DHCPv6(); d->msg_type(DHCPv6::DECLINE); return d; });
+      EN("msg_type", 8, uint8_t, DHCPv6::MessageType, msg_type); fix_last(); SU("transaction_id", 24, 24, transaction_id); }
     // ---- IEEE 802.11
     { cls("Dot11", false, []() -> PDU* { return new Dot11(); }); dot11_fc(); unpin("type"); unpin("subtype"); }
     { cls("Dot11Data", false, []() -> PDU* { return new Dot11Data(); }); dot11_fc(); dot11_seq<Dot11Data>(); }
